@@ -229,6 +229,22 @@ def check_sim(case, col=None):
                                                              'characters' if enc else 'bytes', len(want), k))
             if not sp.flag_eof:
                 raise Violation('flag-eof', 'flag_eof is not set after EOF')
+            # delivered once: whatever is read after EOF was reported adds nothing
+            for again in ('read', 'expect_eof'):
+                try:
+                    with guard('%s after EOF' % again, allow=(EOF, TIMEOUT)):
+                        if again == 'read':
+                            more = sp.read()
+                        else:
+                            sp.expect(EOF, timeout=T)
+                            more = sp.before
+                except (EOF, TIMEOUT) as e:
+                    raise Violation('after-eof', '%s after EOF raised %s' % (again, type(e).__name__))
+                except Blocked as b:
+                    raise Violation('blocked', '%s after EOF blocks (%s)' % (again, b))
+                if len(more):
+                    raise Violation('delivered-twice', '%s transport: %s after EOF had been reported handed out %d more %s (%r...)'
+                                    % (case['kind'], again, len(more), 'characters' if enc else 'bytes', more[:20]))
             if case['kind'] == 'socket' and sim.sock_proxy.gettimeout() != case['sock_timeout']:
                 raise Violation('socket-timeout-not-restored', 'after EOF the socket timeout is %r, was %r'
                                 % (sim.sock_proxy.gettimeout(), case['sock_timeout']))
